@@ -144,35 +144,49 @@ Definition name_INDEXER : str := [73; 78; 68; 69; 88; 69; 82].
 Definition name_MAP : str := [77; 65; 80].
 Definition name_OP_ : str := [79; 80; 95].
 
+(* operators.get(record[0], (0, 0, '', None)) *)
+Definition old_row (s : str) (rs : list brow) : brow :=
+  match lookup_row s rs with
+  | Some x => x
+  | None => {| b_sym := s; b_up := 0; b_bp := 0; b_name := []; b_alias := None |}
+  end.
+
+(* the (up, bp) pair after recording the role; None = InvalidOperatorTableException
+   (the symbol already has a role of that arity) *)
+Definition new_levels (k : okind) (prec : Z) (old : brow) : option (Z * Z) :=
+  match k with
+  | KPrefix => if b_up old =? 0 then Some (prec, b_bp old) else None
+  | KSuffix => if b_up old =? 0 then Some (- prec, b_bp old) else None
+  | KLeft => if b_bp old =? 0 then Some (b_up old, prec) else None
+  | KRight => if b_bp old =? 0 then Some (b_up old, - prec) else None
+  | KNameValue => None
+  end.
+
+(* token name of the row and the advanced name generator *)
+Definition name_for (s : str) (old : brow) (gen : Z) : str * Z :=
+  if str_eqb s sym_index then (name_INDEXER, gen)
+  else if str_eqb s sym_map then (name_MAP, gen)
+  else match b_name old with
+       | [] => (name_OP_ ++ gen_name gen, gen + 1)
+       | n => (n, gen)
+       end.
+
 Fixpoint build_loop (ops : oplist) (prec : Z) (gen : Z) (rs : list brow) (nv : option str) : option built :=
   match ops with
   | [] => Some {| rows := rs; nvop := nv |}
   | Sep :: r => build_loop r (prec + 1) gen rs nv
+  | Op s KNameValue al :: r =>
+      match nv with
+      | Some _ => None                       (* InvalidOperatorTableException *)
+      | None => build_loop r prec gen rs (Some s)
+      end
   | Op s k al :: r =>
-      let old := match lookup_row s rs with
-                 | Some x => x
-                 | None => {| b_sym := s; b_up := 0; b_bp := 0; b_name := []; b_alias := None |}
-                 end in
-      let up := b_up old in
-      let bp := b_bp old in
-      let upd (up' bp' : Z) :=
-        let '(name, gen') :=
-          if str_eqb s sym_index then (name_INDEXER, gen)
-          else if str_eqb s sym_map then (name_MAP, gen)
-          else match b_name old with
-               | [] => (name_OP_ ++ gen_name gen, gen + 1)
-               | n => (n, gen)
-               end in
-        build_loop r prec gen' (set_row {| b_sym := s; b_up := up'; b_bp := bp'; b_name := name; b_alias := al |} rs) nv in
-      match k with
-      | KNameValue => match nv with
-                      | Some _ => None                       (* InvalidOperatorTableException *)
-                      | None => build_loop r prec gen rs (Some s)
-                      end
-      | KPrefix => if up =? 0 then upd prec bp else None
-      | KSuffix => if up =? 0 then upd (- prec) bp else None
-      | KLeft => if bp =? 0 then upd up prec else None
-      | KRight => if bp =? 0 then upd up (- prec) else None
+      let old := old_row s rs in
+      match new_levels k prec old with
+      | None => None
+      | Some (up', bp') =>
+          let '(name, gen') := name_for s old gen in
+          build_loop r prec gen' (set_row {| b_sym := s; b_up := up'; b_bp := bp'; b_name := name; b_alias := al |} rs) nv
       end
   end.
 
